@@ -22,6 +22,7 @@ class FeatureIDEReader(TextToModel):
     TAG_FEATURE = "feature"
     TAG_CONSTRAINTS = "constraints"
     TAG_GRAPHICS = "graphics"
+    TAG_DESCRIPTION = "description"
 
     # Feature tags
     TAG_AND = "and"
@@ -79,7 +80,7 @@ class FeatureIDEReader(TextToModel):
         feature = None
 
         for child in root_tree:
-            if not child.tag == FeatureIDEReader.TAG_GRAPHICS:
+            if child.tag not in (FeatureIDEReader.TAG_GRAPHICS, FeatureIDEReader.TAG_DESCRIPTION):
                 is_abstract = (
                     FeatureIDEReader.ATTRIB_ABSTRACT in child.attrib
                     and child.attrib[FeatureIDEReader.ATTRIB_ABSTRACT] == "true"
